@@ -97,6 +97,10 @@ def _fs(kind):
     from evo.tools.settings_template import DEFAULT_SETTINGS_DICT
     dirs = [HOME]
     files = {}
+    marker = b"v1.0.0"
+    if kind.startswith("outdated:"):
+        marker = kind.split(":", 1)[1].encode()
+        kind = "outdated"
     if kind in ("init", "outdated"):
         dirs.append(EVO)
         d = dict(DEFAULT_SETTINGS_DICT)
@@ -104,7 +108,7 @@ def _fs(kind):
             for k in sorted(d)[:5]:
                 del d[k]
             d["plot_backend"] = "UserChoice"
-            files[VERSION] = b"v1.0.0"
+            files[VERSION] = marker
         else:
             files[VERSION] = evo.__version__.encode()
         files[SETTINGS] = json.dumps(d, indent=4, sort_keys=True).encode()
@@ -170,6 +174,8 @@ SCENARIOS = {
     # name: (fs kind, [bodies], late indices)
     "crash:first-start": ("empty", ["start", "start"], {1}),
     "crash:upgrade": ("outdated", ["start", "start"], {1}),
+    "crash:upgrade-from-v1.9.0": ("outdated:v1.9.0", ["start", "start"], {1}),
+    "crash:upgrade-empty-marker": ("outdated:", ["start", "start"], {1}),
     "crash:reset": ("init", ["reset", "start"], {1}),
     "crash:reset-subset": ("init", ["reset_subset", "start"], {1}),
     "crash:set": ("init", ["set", "start"], {1}),
@@ -199,7 +205,9 @@ def scenario(name):
 def run(ctx):
     acc = Acc()
     plan = [
-        ("crash:first-start", 1), ("crash:upgrade", 1), ("crash:reset", 1),
+        ("crash:first-start", 1), ("crash:upgrade", 1),
+        ("crash:upgrade-from-v1.9.0", 1), ("crash:upgrade-empty-marker", 1),
+        ("crash:reset", 1),
         ("crash:reset-subset", 1), ("crash:set", 1), ("crash:merge", 1),
         ("race:2-starts-empty", 0), ("race:2-starts-outdated", 0),
         ("race:set+start", 0), ("race:reset+start", 0),
